@@ -66,6 +66,10 @@ pub fn judge(h: &Handles, t: Triple, got: &Option<Lib>) -> Option<(String, Strin
 }
 
 pub fn check_triple(h: &Handles, t: Triple, st: &mut Stats, mode: Count) {
+    netted(st, || h.case(t), 3, |st| check_triple_inner(h, t, st, mode));
+}
+
+fn check_triple_inner(h: &Handles, t: Triple, st: &mut Stats, mode: Count) {
     st.eval();
     // decoy queries first: the answer must be a function of the query alone, not of what was
     // asked before on this thread (hidden caches keyed by a part of the triple)
@@ -156,6 +160,10 @@ pub fn check_dressed(h: &Handles, d: &Dressed, st: &mut Stats) {
 }
 
 pub fn check_parts(h: &Handles, p: &values::Parts, st: &mut Stats, mode: Count) {
+    netted(st, || values::parts_case(p), values::parts_case(p).to_string().len(), |st| check_parts_inner(h, p, st, mode));
+}
+
+fn check_parts_inner(h: &Handles, p: &values::Parts, st: &mut Stats, mode: Count) {
     st.eval();
     let case = || values::parts_case(p);
     let size = case().to_string().len();
